@@ -72,6 +72,8 @@ type retSite struct {
 
 type FnVC struct {
 	P   *Prog
+	ifaceAsserted []types.Type    // interface types this function asserts values to
+	implKnown     map[string]bool // implements-facts already emitted ("typeid:ifaceid")
 	fn  *ssa.Function
 	ct  *Contract
 	te  *TypeEnv
@@ -472,6 +474,17 @@ func (c *FnVC) havocComp(k, inW, allocPre, allocPost string) {
 		old := c.H("alloc")
 		n := c.freshConst("H_alloc", "Int")
 		c.assume(fmt.Sprintf("(>= %s %s)", n, old))
+		c.cur[k] = n
+		return
+	}
+	if isRelComp(k) {
+		// a ghost relation is either untouched or changes as a whole
+		if inW == "false" {
+			return
+		}
+		c.H(k) // make sure the previous version exists (declared lazily)
+		n := c.freshName("H_" + sanitize(k))
+		c.lazy[n] = &lazySym{emit: func() { c.decl(n, compSort(c, k)) }}
 		c.cur[k] = n
 		return
 	}
@@ -1012,6 +1025,9 @@ func (c *FnVC) frameObligations(reach string) {
 		extra := []string{fmt.Sprintf("(declare-const %s Loc)", sk)}
 		inM := ms.inSet(k, sk)
 		goal := fmt.Sprintf("(=> (and (< (base %s) %s) %s) (= (select %s %s) (select %s %s)))", sk, a0, not(inM), hr, sk, h0, sk)
+		if isRelComp(k) {
+			goal = fmt.Sprintf("(or %s (= %s %s))", inM, hr, h0)
+		}
 		c.obligeNamed("frame", "frame."+sanitize(k), goal, reach, "frame: heap component "+k+" unchanged outside modifies", extra)
 	}
 }
